@@ -349,7 +349,7 @@ func (p *Program) Named(pkg, name string) *types.Named {
 	if tm == nil {
 		return nil
 	}
-	n, _ := tm.Type().(*types.Named)
+	n, _ := types.Unalias(tm.Type()).(*types.Named)
 	return n
 }
 
